@@ -139,7 +139,7 @@ CLAIMED = {
        "exactly when the queue is full with nothing consumed, zero disables a level, fresh identifier never in use. Random histories with "
        "limits in {0,1,2,3,4,8,-1,16384,20000} are run against the real client.",
   design="6/C17", technique="Lean 4 proof (invariant + modular arithmetic) + differential correspondence",
-  note="A-ovf (2^64 publishes); subscribe/unsubscribe slot window is modelled in Session, its distinctness theorem is pending"),
+  note="A-ovf (2^64 publishes); the subscribe/unsubscribe slot window is modelled in Session: distinctness and totality of the identifier search are C11_startTx_fresh and C11_startTx_total, and the identifiers on the wire are judged by mon_unordered_ids"),
  "C08": dict(
   text="Lean 4 theorems: for every packet, every split into buffers and every sequence of Write outcomes (short writes, deadline expiries "
        "with and without progress, hard and closed errors) the bytes writeTo/writeBuffersTo put on a connection are a prefix of the packet and "
